@@ -332,11 +332,12 @@ def c20g(ctx):
               fail='parse_httpdate returns a timestamp for an unparsable date (or None for a valid one): If-Modified-Since is evaluated against garbage')
     mc = ctx.fn('mapproxy/response.py:Response.make_conditional')
     cf = Canon(mc)
+    # the ordering comparison one side of which is (in closed form) the time stamp of the response
     cmps = [c for c in mc.walk() if isinstance(c, ast.Compare) and len(c.ops) == 1 and isinstance(c.ops[0], (ast.Lt, ast.LtE, ast.Gt, ast.GtE)) and
-            '_timestamp' in unparse(c)]
+            any('_timestamp' in mc.ctext(e) for e in (c.left, c.comparators[0]))]
     ok = bool(cmps)
     for c in cmps:
-        other = c.comparators[0] if '_timestamp' in unparse(c.left) else c.left
+        other = c.comparators[0] if '_timestamp' in mc.ctext(c.left) else c.left
         v = cf.expr(other)
         ok = ok and is_call(v, 'parse_httpdate') and len(v.args) == 1 and is_call(v.args[0], 'get') and \
             const_value(v.args[0].args[0]) == 'HTTP_IF_MODIFIED_SINCE' and 'environ' in unparse(v.args[0].func.value)
